@@ -220,3 +220,75 @@ func vGetStatus(n *vNode, s vSession) vResp {
 	}
 	return vResp{Code: code, Body: w.body.String()}
 }
+
+// TestVerifC10Follower (C10): a retried POST reaches a node that is not the leader and knows no leader (the
+// moment clients fail over).  The node has applied the first copy, so it answers the retry itself, with
+// success, from its own duplicate-detection marker -- it neither needs a leader for that nor may it hand the
+// message on.  Both raft states of a non-leader, every session of the log, the last message and an older one.
+func TestVerifC10Follower(t *testing.T) {
+	shard, _ := strconv.Atoi(os.Getenv("VERIF_SHARD"))
+	res := &vSeqResult{EndStates: map[string]int{}}
+	sigs := map[string]*vViol{}
+	base := t.TempDir()
+	setup := []string{"cfg", "+A", "A: NICK a", "A: USER a 0 * :A"}
+	l := c02MakeLog("retry", [][]string{setup, {"A: JOIN #c", "+B", "B: NICK b", "B: USER b 0 * :B", "B: JOIN #c", "A: PRIVMSG #c :one", "B: PRIVMSG #c :two", "A: PING keepalive"}}, []int{0, 0}, []int{2, 0})
+	if shard == 0 {
+		for ji, quiet := range []bool{false, true} {
+			*useProtobuf = true
+			var entries []ircserver.VEntry
+			for _, ch := range l.Chunks {
+				entries = append(entries, ch.Entries...)
+			}
+			start, wantState := vStartFollower, raft.Candidate
+			if quiet {
+				start, wantState = vStartQuietFollower, raft.Follower
+			}
+			n, err := start(fmt.Sprintf("%s/r%d", base, ji))
+			if err != nil {
+				t.Fatal(err)
+			}
+			for k := 0; k < 5000 && n.raft.State() != wantState; k++ {
+				time.Sleep(time.Millisecond)
+			}
+			w := &c02World{}
+			lastOf := map[uint64]ircserver.VEntry{}
+			prevOf := map[uint64]ircserver.VEntry{}
+			auth := map[uint64]string{}
+			for _, e := range entries {
+				n.fsm.Apply(w.raftLog(e))
+				if e.Type == robust.CreateSession {
+					auth[e.Id] = e.Data
+				}
+				if e.Type == robust.IRCFromClient {
+					if le, ok := lastOf[e.Session.Id]; ok {
+						prevOf[e.Session.Id] = le
+					}
+					lastOf[e.Session.Id] = e
+				}
+			}
+			res.Sequences++
+			for sidx, le := range lastOf {
+				id := robust.IdFromRaftIndex(sidx)
+				s := vSession{Id: fmt.Sprintf("0x%x", id), Auth: auth[sidx], Num: id}
+				before := len(n.logEntries())
+				r := n.post(s, le.Data, le.ClientMessageId)
+				res.Ops++
+				res.EndStates[fmt.Sprintf("%v node: retry of the last message -> %d", wantState, r.Code)]++
+				if r.Code != 200 {
+					res.report(sigs, "C10", "retry of the last message is not acknowledged by a node that has applied it but knows no leader", fmt.Sprintf("%v node, session of index %d: retry of %q (client message id %d) answered %d %s", wantState, sidx, le.Data, le.ClientMessageId, r.Code, r.Body), []string{"c10follower", wantState.String()})
+				}
+				if len(n.logEntries()) != before {
+					res.report(sigs, "C10", "retry appended to the log of a non-leader", fmt.Sprintf("%v node, session of index %d", wantState, sidx), []string{"c10follower", wantState.String()})
+				}
+			}
+			n.Stop()
+			os.RemoveAll(n.dir)
+		}
+	}
+	b, _ := json.Marshal(res)
+	if o := os.Getenv("VERIF_OUT"); o != "" {
+		os.WriteFile(o, b, 0644)
+	} else {
+		fmt.Println(string(b))
+	}
+}
